@@ -75,4 +75,9 @@ TEXT = {
         level_text="Exploration: hostile mapping bytes and hostile queries are pushed through every public entry point (mapper construction, cache write/parse, all query kinds with extreme line numbers, text and typed trace remapping, the try_parse functions, signature deobfuscation, metadata) while a process-wide panic hook records file:line of any panic inside the library and the build turns every arithmetic overflow into a panic.",
         level_note="Trusted: rustc overflow checks/debug assertions reach all library code because /repo is compiled as part of the harness build with that profile.",
     ),
+    "C15": dict(
+        technique="runtime monitor with fault enumeration: fault-injecting io::Write sinks whose event log (call index, offered, accepted/error) is checked offline against the canonical bytes",
+        level_text="Fault enumeration: for each mapping every chunk size 1..16 and, for every write call the serialiser makes, a short write, a hard failure, an Interrupted error and an Ok(0) are injected exactly there; success must mean the sink holds exactly the canonical bytes, a hard failure must be reported, and after a reported failure the sink holds a prefix of the canonical bytes. Per-site counters show that header, classes, members, by-params, strings and the three non-empty padding sites were all hit.",
+        level_note="Trusted: the sink implementations (~100 lines). Per mapping the schedule space is complete; mappings are sampled.",
+    ),
 }
